@@ -207,7 +207,10 @@ func Statements(s *gen.Schema, thorough bool) []gen.Stmt {
 		out = append(out, gen.Stmt{Name: "pk-assign", Kind: "update-pk", SQL: "UPDATE t_s1 SET id = 50 WHERE id = 1"},
 			gen.Stmt{Name: "pk-assign-bound", Kind: "update-pk", SQL: "UPDATE t_s1 SET id = ?, cnt = 1 WHERE id = ?", Args: []interface{}{int64(51), int64(2)}},
 			gen.Stmt{Name: "pk-assign-same", Kind: "update-pk", SQL: "UPDATE t_s1 SET id = id + 100 WHERE cnt >= 20"},
-			gen.Stmt{Name: "ups-pk-assign", Kind: "upsert-pk", SQL: "INSERT INTO t_s1 (id, name, cnt) VALUES (1, 'z', 9) ON DUPLICATE KEY UPDATE id = 60"})
+			gen.Stmt{Name: "ups-pk-assign", Kind: "upsert-pk", SQL: "INSERT INTO t_s1 (id, name, cnt) VALUES (1, 'z', 9) ON DUPLICATE KEY UPDATE id = 60"},
+			// the key column spelled in another letter case than the table meta spells it (column names are case-insensitive)
+			gen.Stmt{Name: "ups-pk-assign-upper", Kind: "upsert-pk", SQL: "INSERT INTO t_s1 (id, name, cnt) VALUES (1, 'z', 9) ON DUPLICATE KEY UPDATE ID = ID + 100"},
+			gen.Stmt{Name: "pk-assign-upper", Kind: "update-pk", SQL: "UPDATE t_s1 SET ID = 52 WHERE id = 1"})
 	case "s3":
 		out = append(out, gen.Stmt{Name: "pk-assign", Kind: "update-pk", SQL: "UPDATE t_s3 SET b = 'new' WHERE a = 1 AND b = 'x'"})
 	case "s4":
